@@ -38,6 +38,9 @@ pub struct Spec {
     pub load_flags: Vec<u32>,
     /// parts of the segments' file contents that are zero: (segment, first byte, length)
     pub zero_runs: Vec<(usize, u32, u32)>,
+    /// section and symbol names that are stored only as the tail of a longer string-table entry (as linkers do):
+    /// (name, prefix of the longer entry); a symbol of the longer name with a decoy value is added for symbols
+    pub tail_share: Vec<(String, String)>,
 }
 
 fn be16(v: &mut Vec<u8>, x: u16) {
@@ -132,6 +135,12 @@ impl Spec {
         for n in sect_names.iter() {
             if n.is_empty() {
                 name_idx.push(0);
+            } else if let Some((_, pre)) = self.tail_share.iter().find(|(t, _)| t == n) {
+                // stored once, as the tail of a longer name
+                shstr.extend(pre.as_bytes());
+                name_idx.push(shstr.len() as u32);
+                shstr.extend(n.as_bytes());
+                shstr.push(0);
             } else {
                 name_idx.push(shstr.len() as u32);
                 shstr.extend(n.as_bytes());
@@ -142,7 +151,18 @@ impl Spec {
         let mut strtab: Vec<u8> = vec![0];
         let mut symtab: Vec<u8> = Vec::new();
         for (n, v) in self.symbols.iter() {
-            let ni = strtab.len() as u32;
+            let mut ni = strtab.len() as u32;
+            if let Some((_, pre)) = self.tail_share.iter().find(|(t, _)| t == n) {
+                // the longer symbol first (its own entry, decoy value), then this one pointing into its tail
+                be32(&mut symtab, ni);
+                be32(&mut symtab, 0x7777);
+                be32(&mut symtab, 0);
+                symtab.push(0x12);
+                symtab.push(0);
+                be16(&mut symtab, 1);
+                strtab.extend(pre.as_bytes());
+                ni = strtab.len() as u32;
+            }
             strtab.extend(n.as_bytes());
             strtab.push(0);
             be32(&mut symtab, ni);
@@ -264,6 +284,7 @@ impl Spec {
             "segs": self.segs.iter().map(|s| json!([s.vaddr, s.filesz, s.memsz])).collect::<Vec<_>>(),
             "load_flags": self.load_flags,
             "zero_runs": self.zero_runs.iter().map(|x| json!([x.0, x.1, x.2])).collect::<Vec<_>>(),
+            "tail_share": self.tail_share.iter().map(|x| json!([x.0, x.1])).collect::<Vec<_>>(),
             "nonload": self.nonload.iter().map(|x| json!([x.0, x.1, x.2, x.3])).collect::<Vec<_>>(),
             "file_order": self.file_order,
             "got": self.got.as_ref().map(|(a, e)| json!([a, e])),
@@ -290,6 +311,7 @@ impl Spec {
             args: v["args"].as_str()?.to_string(),
             seed: u(&v["seed"])?,
             load_flags: v["load_flags"].as_array().map(|a| a.iter().map(|x| u(x).unwrap_or(7)).collect()).unwrap_or_default(),
+            tail_share: v["tail_share"].as_array().map(|a| a.iter().map(|x| (x[0].as_str().unwrap_or("").to_string(), x[1].as_str().unwrap_or("").to_string())).collect()).unwrap_or_default(),
             zero_runs: v["zero_runs"].as_array().map(|a| a.iter().map(|x| (u(&x[0]).unwrap_or(0) as usize, u(&x[1]).unwrap_or(0), u(&x[2]).unwrap_or(0))).collect()).unwrap_or_default(),
         })
     }
@@ -309,6 +331,7 @@ pub fn default_spec() -> Spec {
         seed: 1,
         load_flags: Vec::new(),
         zero_runs: Vec::new(),
+        tail_share: Vec::new(),
     }
 }
 
@@ -692,8 +715,15 @@ pub fn specs(tier: Tier) -> Vec<Spec> {
         s.seed = i as u32;
         out.push(s);
     }
-    // ---- factor: non-load program headers in every position (incl. last), 0-2 of them
-    for ty in [0u32, 4, 0x6474e551] {
+    // ---- factor: names stored as tails of longer string-table entries
+    for shared in [vec![(".got", ".rela")], vec![(".stack", ".mes")], vec![(".symtab", ".dyn")], vec![(".strtab", ".dyn")], vec![(".shstrtab", ".x")], vec![("___exit", "_mes")], vec![(".got", ".rela"), (".stack", ".x"), ("___exit", "_")]] {
+        let mut sp = d.clone();
+        sp.tail_share = shared.iter().map(|(a, b)| (a.to_string(), b.to_string())).collect();
+        out.push(sp);
+    }
+    // ---- factor: non-load program headers in every position (incl. last), 0-2 of them; p_type values whose low
+    //      8 / 16 / 24 bits look like PT_LOAD
+    for ty in [0u32, 4, 0x6474e551, 2, 3, 5, 6, 7, 0x101, 0x0001_0001, 0x0100_0001, 0x6000_0001, 0x7000_0001, 0xffff_0001, 0x8000_0001, 0x0002_0001, 0x6474_e550, 0x6474_e552] {
         for pos in 0..=2usize {
             let mut s = d.clone();
             s.nonload = vec![(pos, ty, 0, 0)];
